@@ -208,6 +208,8 @@ class Lib(object):
                             results.append((p3, k3, v3))
                 paths = nxt
             return results + paths
+        if isinstance(it, GenVal) and (self.lookup(it.f.qual) is None or self.lookup(it.f.qual).seq is None):
+            return self.for_over_inlined_generator(ex, st, p, fctx, it)
         if spec is None:
             raise Unsupported("no invariant for %s" % key)
         # symbolic iteration: a hidden index over a sequence view
@@ -239,6 +241,61 @@ class Lib(object):
             return [("index-range", z3.And(i >= 0, i <= n))]
 
         return self.cut(ex, st, p, fctx, key, spec, cond, step, bind, extra_locals=(idx,), auto_inv=auto_inv, index_name=idx)
+
+    def for_over_inlined_generator(self, ex, st, p, fctx, gen):
+        """`for x in g(...): body` where g has no sequence contract: g's real body is
+        executed and the consumer's body runs at every `yield` (the loops of g are cut at
+        g's own loop contracts, whose invariants may depend on the consumer: ex.fn).
+        `break` / `return` of the consumer leave g as the kinds xbreak / xreturn."""
+        f = gen.f
+        q = p.fork()
+        saved_env = q.env
+        try:
+            env = ex.bind(f, gen.args, gen.kw, q)
+        except Exception as e:
+            raise Unsupported("binding generator %s: %s" % (f.qual, e))
+        consumer_env = dict(saved_env)
+
+        def on_yield(ex_, q1, v, ln):
+            genv = q1.env
+            q1.env = dict(q1.w.pop("__consumer_env"))
+            q1 = ex_.assign(st.target, v, q1, fctx, ln)
+            out = []
+            for q2, kind, val in ex_.block(st.body, q1, fctx):
+                cenv = q2.env
+                q2.w["__consumer_env"] = cenv
+                q2.env = genv
+                if kind in ("normal", "continue"):
+                    out.append((q2, "normal", None))
+                elif kind == "break":
+                    out.append((q2, "xbreak", None))
+                elif kind == "return":
+                    out.append((q2, "xreturn", val))
+                else:
+                    out.append((q2, kind, val))
+            return out
+
+        q.w["__consumer_env"] = consumer_env
+        q.w["__consumer_assigned"] = sorted(set(n.id for stm in st.body for n in ast.walk(stm) if isinstance(n, ast.Name) and isinstance(n.ctx, ast.Store)) | set(n.id for n in ast.walk(st.target) if isinstance(n, ast.Name)))
+        q.env = env
+        sub = FCtx(f.qual, f.module, f.cls, on_yield=on_yield)
+        ex.inline_depth += 1
+        try:
+            res = ex.block(f.node.body, q, sub)
+        finally:
+            ex.inline_depth -= 1
+        out = []
+        for q2, kind, val in res:
+            cenv = q2.w.pop("__consumer_env")
+            q2.w.pop("__consumer_assigned", None)
+            q2.env = cenv
+            if kind in ("normal", "return", "xbreak"):
+                out.append((q2, "normal", None))
+            elif kind == "xreturn":
+                out.append((q2, "return", val))
+            else:
+                out.append((q2, kind, val))
+        return out
 
     def seq_of(self, ex, it, p, fctx, ln):
         if isinstance(it, Ref):
@@ -288,6 +345,14 @@ class Lib(object):
                     except Unsupported:
                         if spec.havoc is None:
                             raise
+        if "__consumer_env" in h.w:
+            # the loop belongs to a generator inlined into a for statement: the
+            # consumer's body runs at each yield and may assign its own locals
+            cenv = dict(h.w["__consumer_env"])
+            for nm in h.w.get("__consumer_assigned", ()):
+                if nm in cenv and not isinstance(cenv[nm], Ref):
+                    cenv[nm] = fresh_like(cenv[nm], nm)
+            h.w["__consumer_env"] = cenv
         for k in spec.world:
             h.w[k] = fresh(k, h.w[k].sort())
         if spec.havoc:
@@ -448,6 +513,10 @@ class Lib(object):
             (v,) = args
             if isinstance(v, Ref) and "items" in p.obj(v).f:
                 return [(p, tuple(reversed(p.obj(v).f["items"])))]
+            if isinstance(v, Ref) and "len" in p.obj(v).f:
+                o = p.obj(v)
+                n, el = o.f["len"], o.f["elem"]
+                return [(p, SeqView(n, lambda i, n=n, el=el: el(n - 1 - i)))]
             raise Unsupported("reversed of a symbolic list")
         if name == "bytearray":
             p = p.fork()
@@ -482,6 +551,8 @@ class Lib(object):
             if o.cls == "bytearray":
                 return z3.Length(o.f["content"])
             if o.cls in ("set", "dict", "Counter"):
+                return o.f["n"]
+            if o.cls == "bag":
                 return o.f["n"]
             h = self.methods.get((o.cls, "__len__"))
             if h:
@@ -588,6 +659,26 @@ class Lib(object):
                 p.obj(recv).f["items"].reverse()
                 p.mut += 1
                 return [(p, None)]
+        if cls == "bag":
+            # a work-list abstracted by the property every entry satisfies
+            if name == "append":
+                p = p.fork()
+                o = p.obj(recv)
+                for nm, f in o.f["phi"](ex, p, args[0]):
+                    ex.oblige(p, "worklist-entry:" + nm, f, ln, "loop")
+                o.f["n"] = o.f["n"] + 1
+                p.mut += 1
+                return [(p, None)]
+            if name == "pop":
+                p = p.fork()
+                o = p.obj(recv)
+                ex.oblige(p, "pop-from-nonempty", o.f["n"] >= 1, ln, "safety")
+                e = o.f["mk"]()
+                for nm, f in o.f["phi"](ex, p, e):
+                    p.assume(f)
+                o.f["n"] = o.f["n"] - 1
+                p.mut += 1
+                return [(p, e)]
         if cls == "bytearray":
             if name == "extend":
                 p = p.fork()
